@@ -25,7 +25,7 @@ use dquic::qevent::{
 };
 
 use crate::{
-    c02,
+    registry::c02,
     common::{Opts, Rng, Sink},
     sim::{self, PairCfg, Profile},
 };
